@@ -100,23 +100,47 @@ def uses_var(t):
                                 for x in t[1:] if isinstance(x, tuple))
 
 
+ATOMS_U = [("e2", C(chr(0xE9))), ("arrow3", C(chr(0x2192))), ("emoji4", C(chr(0x1F600))),
+           ("s_arrow", S(chr(0x2192))), ("s_lt_le", S("<" + chr(0x2264))), ("s_le_x", S(chr(0x2264) + "x")),
+           ("s_emoji2", S(chr(0x1F600) + chr(0x1F601))), ("greek", SET((chr(0x3B1), chr(0x3C9)))),
+           ("arrows", SET((chr(0x2190), chr(0x21FF)))), ("mixset", SET("_", ("a", "c"), "x")),
+           ("astral", SET((chr(0x1F600), chr(0x1F64F))))]
+
+
 def fam_ops(tier, seed):
     out = []
-    sizes = [1, 2, 3] if tier == "quick" else [1, 2, 3, 4]
     env = {"v": V_DEF}
-    for sz in sizes:
+    rnd = random.Random(seed + 3)
+    for sz in (1, 2, 3, 4):
         ts = trees(sz)
-        if tier == "quick" and sz == 3:
-            # all unary-of-binary and binary-of-unary shapes would be ~600: take every 5th,
-            # deterministically; the thorough tier takes all
-            ts = ts[::5]
-        if tier == "thorough" and sz == 4:
-            rnd = random.Random(seed)
-            ts = rnd.sample(ts, min(len(ts), 1500))
+        if sz == 4:
+            # ~7 000 trees: a seeded sample (the thorough tier takes ten times more)
+            ts = rnd.sample(ts, 150 if tier == "quick" else 1500)
         for n, t in ts:
             re = t if not nullable(t, env) else ("cat", t, C("z"))
             lets = [("v", V_DEF)] if uses_var(t) else []
             out.append(single("ops_%d_%s" % (sz, n), "ops", re, lets))
+    # character VALUES: the same operators over multi-byte characters, strings ending in a
+    # multi-byte character, non-ASCII ranges, and a set mixing single characters with a range
+    for n, a in ATOMS_U:
+        out.append(single("ops_u1_%s" % n, "ops", a))
+        for un, f in UN:
+            t = f(a)
+            out.append(single("ops_u2_%s_%s" % (un, n), "ops", ("cat", t, C("z")) if nullable(t) else t))
+        for n2, b in ATOMS[:5] + ATOMS_U[:4]:
+            if n2 == n:
+                continue
+            out.append(single("ops_u3_cat_%s_%s" % (n, n2), "ops", ("cat", a, b)))
+            out.append(single("ops_u3_cat_%s_%s" % (n2, n) + "_r", "ops", ("cat", b, a)))
+            out.append(single("ops_u3_alt_%s_%s" % (n, n2), "ops", ("alt", a, b)))
+    # alternations that repeat a literal, also through variables
+    a_, b_, c_ = C("a"), C("b"), C("c")
+    out.append(single("ops_alt_rep_chars", "ops", alt(a_, b_, a_)))
+    out.append(single("ops_alt_rep_str1", "ops", alt(S("c"), S("c"))))
+    out.append(single("ops_alt_rep_strs", "ops", alt(S("ab"), S("ab"), S("a"))))
+    out.append(single("ops_alt_rep_var", "ops", alt(V("s"), C("*"), C("-")), [("s", alt(C("+"), C("-")))]))
+    out.append(single("ops_alt_rep_nested", "ops", cat(alt(alt(a_, b_), alt(b_, c_)), C("!"))))
+    out.append(single("ops_alt_rep_set", "ops", alt(SET("a", "b"), a_, SET(("a", "c")))))
     # nested repetition (named in C02's quantifier): every postfix operator around a concatenation /
     # alternation whose head or tail is itself under a postfix operator
     a, b, c = C("a"), C("b"), C("c")
@@ -172,6 +196,18 @@ def fam_munch(tier, seed):
         ("opt_tail", [cat(S("ab"), opt(S("cd"))), cat(S("abc"), C("x"))]),
         ("star_alt", [cat(star(alt(S("ab"), C("a"))), C("c")), C("a"), C("b")]),
     ]
+    # every kind of successor (char, range, `_`, end of input) behind a FIRST accepting state, one
+    # and two steps deep, with the failure happening exactly there
+    kinds = [("chr", C("x")), ("rng", SET(("x", "z"))), ("any", ANY), ("set", SET("x", ("m", "o")))]
+    for kn, K in kinds:
+        hand.append(("succ1_%s" % kn, [C("a"), C("b"), cat(C("a"), K, C("c"))]))
+        hand.append(("succ2_%s" % kn, [C("a"), C("b"), cat(C("a"), K, K, C("c"))]))
+        hand.append(("succ_loop_%s" % kn, [S("ab"), C("b"), cat(S("ab"), plus(K), C("!"))]))
+        for kn2, K2 in kinds:
+            if kn2 != kn:
+                hand.append(("succ_%s_%s" % (kn, kn2), [C("a"), C("b"), cat(C("a"), K, K2, C("c"))]))
+    hand.append(("succ_eoi", [C("a"), C("b"), cat(C("a"), C("x"), EOI)]))
+    hand.append(("succ_any_eoi", [C("a"), C("b"), cat(C("a"), ANY, EOI), cat(C("a"), ANY, C("c"))]))
     for n, rs in hand:
         out.append(Witness("munch_" + n, "munch", Def(top=rules(*rs))))
     n_rand = 22 if tier == "quick" else 1500
@@ -232,6 +268,9 @@ def fam_rulesets(tier, seed):
         "T": [S("xy")],            # automaton with a state that has no transitions (dropped)
         "E": [],                   # empty rule set
         "I": [cat(C("p"), C("q"), C("r")), C("p")],     # chain of single-predecessor (inlined) states
+        # a state with a char and a range transition to the same single-predecessor successor
+        "M": [cat(SET("_", ("a", "z")), SET(("0", "9")))],
+        "N": [cat(SET(("0", "9"), "!"), opt(C("#")))],
     }
 
     def mk(name, order):
@@ -244,7 +283,8 @@ def fam_rulesets(tier, seed):
               ("I", "A"), ("A", "I"), ("A", "B", "C"), ("C", "B", "A"), ("T", "I", "A"),
               ("A", "T", "I"), ("I", "T", "E", "A"), ("E", "E2") if False else ("E", "B"),
               ("D", "C", "T"), ("T", "T2") if False else ("T", "D"), ("A", "B", "C", "D"),
-              ("D", "C", "B", "A")]
+              ("D", "C", "B", "A"), ("M", "N"), ("N", "M"), ("M", "A", "N"), ("A", "M", "T", "N"),
+              ("M", "E", "N", "I")]
     for o in orders:
         out.append(mk("_".join(o), o))
     # Init itself with dropped / inlined states before later entry states
@@ -335,6 +375,22 @@ def fam_rctx(tier, seed):
     out.append(Witness("rctx_in_rulesets", "rctx", Def(sets=[
         ("Init", [Rule(C("a"), ctx=S("bc")), Rule(C("a")), Rule(C("b"))]),
         ("R", [Rule(plus(C("x")), ctx=alt(C("y"), EOI)), Rule(C("x")), Rule(C("y"))])])))
+    out.append(Witness("rctx_local_vars_same_text", "rctx", Def(sets=[
+        ("Init", [("let", "end", C(";")), Rule(C("a"), ctx=V("end")), Rule(C("a")), Rule(C(";")), Rule(C("."))]),
+        ("Dotted", [("let", "end", C(".")), Rule(C("a"), ctx=V("end")), Rule(C("a")), Rule(C(";")), Rule(C("."))])])))
+    out.append(Witness("rctx_local_vars_three_sets", "rctx", Def(sets=[
+        ("Init", [("let", "e", S("xy")), Rule(plus(C("a")), ctx=V("e")), Rule(C("x")), Rule(C("y"))]),
+        ("R", [("let", "e", alt(C("y"), EOI)), Rule(plus(C("a")), ctx=V("e")), Rule(C("x")), Rule(C("y"))]),
+        ("Q", [("let", "e", SET(("x", "z"))), Rule(plus(C("a")), ctx=cat(V("e"), V("e"))), Rule(C("x"))])])))
+    out.append(Witness("rctx_same_ctx_twice", "rctx", Def(top=[
+        Rule(C("a"), ctx=S("bc")), Rule(S("ab"), ctx=S("bc")), Rule(C("b")), Rule(C("c")), Rule(C("a"))])))
+    out.append(Witness("rctx_same_ctx_two_sets", "rctx", Def(sets=[
+        ("Init", [Rule(C("a"), ctx=S("bc")), Rule(C("b")), Rule(C("c"))]),
+        ("R", [Rule(C("x"), ctx=S("bc")), Rule(C("b")), Rule(C("c"))])])))
+    out.append(Witness("rctx_top_and_local_vars", "rctx", Def(
+        top=[("let", "d", SET(("0", "9")))],
+        sets=[("Init", [("let", "t", cat(V("d"), C("!"))), Rule(plus(V("d")), ctx=V("t")), Rule(V("d")), Rule(C("!"))]),
+              ("R", [("let", "t", cat(V("d"), C("?"))), Rule(plus(V("d")), ctx=V("t")), Rule(V("d")), Rule(C("?"))])])))
     out.append(Witness("rctx_with_vars", "rctx", Def(top=[
         ("let", "d", SET(("0", "9"))), Rule(cat(plus(V("d")), C(".")), ctx=alt(diff(ANY, C(".")), EOI)),
         Rule(plus(V("d"))), Rule(S(".."))])))
@@ -453,6 +509,25 @@ def fam_classes(tier, seed):
         cat(SET(("j", "p")), C("4"))))))
     n_rand = 0 if tier == "quick" else 520
     rnd = random.Random(seed + 17)
+    # the class algebra over a small universe: canonical and scrambled spellings of subsets of
+    # {a..h}, combined as A # B, (A | B) # C, A # (B | C), (A # B) # C, (A | B)
+    srnd = random.Random(seed + 23)
+    n_sys = 160 if tier == "quick" else 2000
+    shapes = ["diff", "union_diff", "diff_union", "diff_diff", "union", "union_union_diff"]
+    made = 0
+    guard = 0
+    while made < n_sys and guard < n_sys * 20:
+        guard += 1
+        sh = shapes[made % len(shapes)]
+        sa, sb, sc = small_set(srnd), small_set(srnd), small_set(srnd)
+        e = {"diff": diff(sa, sb), "union_diff": diff(alt(sa, sb), sc), "diff_union": diff(sa, alt(sb, sc)),
+             "diff_diff": diff(diff(sa, sb), sc), "union": alt(sa, sb),
+             "union_union_diff": diff(alt(alt(sa, sb), sc), small_set(srnd))}[sh]
+        if not approx_class(e):
+            continue
+        out.append(single("classes_sys_%s_%d" % (sh, made), "classes",
+                          cat(e, C("!")) if made % 2 else e))
+        made += 1
     i = 0
     while i < n_rand:
         e = rand_class(rnd, 3)
@@ -462,6 +537,38 @@ def fam_classes(tier, seed):
                           cat(e, C("!")) if rnd.random() < 0.5 else e))
         i += 1
     return out
+
+
+def small_set(rnd, lo=ord("a"), hi=ord("h")):
+    """A bracket set denoting a random non-empty subset of a small universe, spelled either with
+    maximal ranges in order, or scrambled with overlapping / adjacent / repeated items."""
+    members = [c for c in range(lo, hi + 1) if rnd.random() < 0.5]
+    if not members:
+        members = [rnd.randint(lo, hi)]
+    runs = []
+    for c in members:
+        if runs and runs[-1][1] == c - 1:
+            runs[-1][1] = c
+        else:
+            runs.append([c, c])
+    items = []
+    for a, b in runs:
+        style = rnd.random()
+        if a == b:
+            items.append(chr(a) if style < 0.7 else (chr(a), chr(a)))
+        elif style < 0.5:
+            items.append((chr(a), chr(b)))
+        elif style < 0.75:
+            m = rnd.randint(a, b)
+            items.append((chr(a), chr(m)))
+            items.append((chr(rnd.randint(a, m)), chr(b)))       # overlapping / adjacent pieces
+        else:
+            items.extend(chr(c) for c in range(a, b + 1))
+    if rnd.random() < 0.4:
+        rnd.shuffle(items)
+    if rnd.random() < 0.2:
+        items.append(items[0])
+    return SET(*items)
 
 
 ASCII_SETS = {
